@@ -40,6 +40,10 @@ func zzCycleObligations(e *zzEnv) {
 			zzv.Record("written", w)
 			zzv.Assert(w == c.applyPwmMapping(c.findClosestDistinctTarget(req)), "E2.write_is_map_of_nearest")
 			zzv.Assert(zzv.And(w >= 0, w <= 255), "E2.write_in_0_255")
+			if len(e.keys) > 0 {
+				// independent of the real lookup (C12 N1 is the thorough version of this)
+				zzv.Assert(zzNearestOut(e.keys, e.vals, req, w), "E2.write_is_map_output_of_a_nearest_supported_input")
+			}
 		}
 	} else {
 		zzv.Assert(len(e.spy.pwmWrites) == 0, "E2.no_write_on_error")
